@@ -70,6 +70,12 @@ CLAIMED = {
             'Monotonicity with Z,f live: search only. Tie: bit-exact correspondence of constructor and altitude look-ups.',
             'hand Lean model + real-analysis bounds, regenerated constants, bit-exact differential run, ISA/grid oracle',
             '5 C08'),
+    'C01': ('Theorems over the integrator model for an arbitrary environment: the loop body IS semi-implicit Euler for the stated vector field (air-relative '
+            'velocity in speed and direction, density and sound speed at station altitude + y, BC in the denominator, wind of the active segment), initial '
+            'state and barrel direction, and the exact closed form in a vacuum for any number of steps and any step sequence (error term (g/2) sum dt^2 <= '
+            '|g|/2 calc_step t). Convergence to the ODE solution for real drag is NOT proved: RK4-reference search only. Tie: bit-exact trajectories.',
+            'hand Lean model + induction over steps, bit-exact differential run, independent RK4 reference + step refinement on the real code',
+            '5 C01'),
     'C02': ('Theorems over the zero-finder model, generic in the miss function: a returned elevation has its sampled miss (height of the '
             'trajectory interpolated at the zero distance minus the sight-line height there) within the accuracy; otherwise an error is raised '
             '(propagated unchanged, or ZeroFindingError above the accuracy with bounded iterations); failed zero leaves the stored zero; '
